@@ -1,1 +1,164 @@
-/-! # C10 — property theorems (stub: not built yet) -/
+import KM.Model.KeyStrength
+import KM.Lemmas.IPBlock
+/-! # C10 — only strong public keys are certified; malformed input never panics a handler
+
+Property theorems only.  `strong` mirrors `certgen.ValidatePublicKeyStrength` with the thresholds
+regenerated from the source, `decide'` what every issuing path does with submitted bytes,
+`KM.Gen.C10.issuingPaths` is the regenerated table of the six issuing paths, `KM.IPBlock.decode`
+the address-extension decoder with Go's index checks explicit. -/
+namespace KM.KeyStrength
+
+/-- **Predicate**: over every RSA size and exponent, every curve Go can parse (P-224, P-256, P-384,
+P-521 — no curve lies between the code's 255 and the property's 256), Ed25519 and every other key
+type, the predicate of the current source accepts exactly what the property allows. -/
+theorem c10_strong (k : KeyDesc) (hc : ∀ cb, k = .ecdsa cb → cb ∈ goCurves) :
+    strong k = spec k := by
+  cases k with
+  | rsa bits e =>
+    simp only [strong, strongWith, current, KM.Gen.C10.rsaMinBits, KM.Gen.C10.rsaMinE, passes, spec]
+    by_cases h1 : bits < 2048 <;> by_cases h2 : e < 65537 <;> simp [h1, h2] <;> omega
+  | ecdsa cb =>
+    have := hc cb rfl
+    simp only [goCurves, List.mem_cons, List.not_mem_nil, or_false] at this
+    rcases this with h | h | h | h <;> subst h <;> decide
+  | ed25519 => decide
+  | other => decide
+
+/-- without the restriction to parseable curves the two differ only on a 255-bit "curve" -/
+theorem c10_strong_any_curve (cb : Nat) : strong (.ecdsa cb) = spec (.ecdsa cb) ∨ cb = 255 := by
+  simp only [strong, strongWith, current, KM.Gen.C10.ecdsaBitSizeBelow, passes, spec]
+  by_cases h1 : cb < 255 <;> by_cases h2 : 256 ≤ cb <;> simp [h1, h2] <;> omega
+
+/-- **Decision**: on every path, whatever bytes are submitted and whatever the regular expression
+says, a certificate is issued only for a key the property allows; unparsable input is refused. -/
+theorem c10_issue (p : Path) (re : Bool) (s : Submitted) (h : decide' p re s = .issue) :
+    ∃ k, s = .key k ∧ ((∀ cb, k = .ecdsa cb → cb ∈ goCurves) → spec k = true) := by
+  cases s with
+  | unparsable => simp [decide', decideWith] at h
+  | key k =>
+    refine ⟨k, rfl, fun hc => ?_⟩
+    rw [← c10_strong k hc]
+    unfold decide' decideWith at h
+    simp only at h
+    split at h
+    · cases h
+    · split at h
+      · assumption
+      · cases h
+
+/-- strong keys are accepted (the refusals are not over-broad): on the non-SSH paths every key the
+property allows is issued for -/
+theorem c10_issue_complete (p : Path) (re : Bool) (k : KeyDesc) (hp : p ≠ .ssh)
+    (hc : ∀ cb, k = .ecdsa cb → cb ∈ goCurves) (hs : spec k = true) :
+    decide' p re (.key k) = .issue := by
+  rw [← c10_strong k hc] at hs
+  unfold decide' decideWith
+  simp only [hp, false_and, if_false]
+  unfold strong at hs
+  simp [hs]
+
+/-- **Paths** (regenerated table): each of the six issuing paths — ssh, x509, x509-kubernetes,
+role-requesting, role-refresh, aws-role — tests key strength (directly or in its parsing helper) in
+a top-level statement that precedes the signing call, and the branch taken for a weak key writes a
+4xx status; `certGenHandler` dispatches only to those handlers and refuses unknown certificate
+types with 400; the signer behind the AWS path tests again; no other function of cmd/keymasterd
+calls a signing primitive except CA self-signing and the first-run TLS certificate. -/
+theorem c10_paths :
+    KM.Gen.C10.issuingPaths.map (·.name) =
+      ["ssh".toList, "x509".toList, "x509-kubernetes".toList, "role-requesting".toList,
+       "role-refresh".toList, "aws-role".toList] ∧
+    KM.Gen.C10.issuingPaths.all pathOK = true ∧
+    KM.Gen.C10.certTypeDispatch =
+      [("ssh".toList, "postAuthSSHCertHandler".toList), ("x509".toList, "postAuthX509CertHandler".toList),
+       ("x509-kubernetes".toList, "postAuthX509CertHandler".toList), ("default".toList, "refuse:400".toList)] ∧
+    KM.Gen.C10.awsSignerTests = true ∧
+    KM.Gen.C10.signSites =
+      ["generateCADer→certgen.GenSelfSignedCACert".toList,
+       "generateCertAndWriteToFile→x509.CreateCertificate".toList,
+       "generateRoleCert→x509.CreateCertificate".toList,
+       "generateSelfRoleRequestingCADer→certgen.GenSelfSignedCACert".toList,
+       "postAuthSSHCertHandler→certgen.GenSSHCertFileString".toList,
+       "postAuthX509CertHandler→certgen.GenUserX509Cert".toList,
+       "withParamsGenerateRoleRequestingCert→certgen.GenIPRestrictedX509Cert".toList] ∧
+    KM.Gen.C10.signerCallers =
+      ["certGenHandler→postAuthSSHCertHandler".toList, "certGenHandler→postAuthX509CertHandler".toList,
+       "certGenHandler→postAuthX509CertHandler".toList,
+       "loadVerifyConfigFile→CertificateGenerator=runtimeState.generateRoleCert".toList,
+       "refreshRoleRequestingCertGenHandler→withParamsGenerateRoleRequestingCert".toList,
+       "roleRequetingCertGenHandler→withParamsGenerateRoleRequestingCert".toList] := by
+  decide
+
+/-- **Source of the predicate** (regenerated): the function is one type switch with exactly the
+recognised cases and tests; nothing else influences the verdict. -/
+theorem c10_predicate_source :
+    KM.Gen.C10.rsaMinBits = some 2048 ∧ KM.Gen.C10.rsaMinE = some 65537 ∧
+    KM.Gen.C10.ecdsaBitSizeBelow = some 255 ∧ KM.Gen.C10.ed25519Accepted = true ∧
+    KM.Gen.C10.defaultRefuses = true ∧ KM.Gen.C10.strengthUnrecognised = [] ∧
+    KM.Gen.C10.sshKeyTypes =
+      ["ssh-rsa".toList, "ssh-dss".toList, "ecdsa-sha2-nistp256".toList, "ssh-ed25519".toList] := by
+  decide
+
+end KM.KeyStrength
+
+namespace KM.IPBlock
+
+/-- **Decoder totality**: for every bit string whatsoever — any claimed bit length, any number of
+bytes, DER-valid or not — the address decoder of the current source returns a block or an error:
+under its guard (`BitLength ≤ 32`, `len(Bytes) ≥ ⌈BitLength/8⌉`, as read from the source) the copy
+loop, modelled with Go's two index checks, never reaches one; hence neither reader of an address
+extension panics and the refresh handler never crashes, for every extension and every peer. -/
+theorem c10_decode_total :
+    (∀ s : BitStr, decode s ≠ .panic) ∧
+    (∀ s : BitStr, s.bitLen ≤ 32 → (s.bitLen + 7) / 8 ≤ s.bytes.length →
+      ∀ fuel i acc, ∃ ip, copyLoop s fuel i acc = .ok ip) ∧
+    (∀ e p, verify e p ≠ .panic ∧ extract e ≠ .panic) ∧
+    (∀ cn e p env, refresh cn e p env ≠ .crashed ∧ ipAuth cn e p env ≠ .crashed) := by
+  refine ⟨decode_ne_panic, copyLoop_safe, fun e p =>
+    ⟨verify_ne_panic decode_ne_panic e p, extract_ne_panic decode_ne_panic e⟩, ?_⟩
+  intro cn e p env
+  have hv := verify_ne_panic decode_ne_panic e p
+  have hx := extract_ne_panic decode_ne_panic e
+  constructor
+  · unfold refresh refreshWith ipAuthWith
+    cases h1 : verifyWith decode e p with
+    | panic => exact absurd h1 hv
+    | err => simp
+    | ok t =>
+      cases t <;> simp
+      cases env.denied <;> cases env.automation <;> cases env.revoked <;> simp
+      split
+      · simp
+      · cases h2 : extractWith decode e with
+        | panic => exact absurd h2 hx
+        | err => simp
+        | ok n => simp
+  · unfold ipAuth ipAuthWith
+    cases h1 : verifyWith decode e p with
+    | panic => exact absurd h1 hv
+    | err => simp
+    | ok t =>
+      cases t <;> simp
+      cases env.denied <;> cases env.automation <;> cases env.revoked <;> simp
+
+end KM.IPBlock
+
+namespace KM.KeyStrength
+
+/-- the pinned tree breaks the property in three places: its predicate certifies a 2047-bit RSA key;
+its AWS path has no strength test of its own, so a weak key is answered with 500, not a client
+error; its address decoder panics on a 40-bit address. -/
+theorem c10_unfixed_counterexample :
+    strongWith asFound (.rsa 2047 65537) = true ∧ spec (.rsa 2047 65537) = false ∧
+    decideWith asFound .x509 true (.key (.rsa 2041 65537)) = .issue ∧
+    pathOK ⟨"aws-role".toList, "requestHandler".toList, .inSigner, false, 500⟩ = false ∧
+    KM.IPBlock.decodeOld ⟨40, [10, 0, 0, 0, 0]⟩ = .panic := by
+  decide
+
+/-! non-vacuity -/
+example : strong (.rsa 2048 65537) = true ∧ strong (.rsa 2047 65537) = false ∧
+    strong (.rsa 4096 3) = false ∧ strong (.ecdsa 224) = false ∧ strong (.ecdsa 256) = true ∧
+    strong .ed25519 = true ∧ strong .other = false := by decide
+example : decide' .ssh false (.key (.ecdsa 384)) = .refuse ∧ decide' .x509 false (.key (.ecdsa 384)) = .issue := by
+  decide
+
+end KM.KeyStrength
